@@ -136,18 +136,18 @@ static void build_seeds() {
 static void targeted() {
     // every (bit depth, colour type) combination, legal or not
     for (int ct : { 0, 1, 2, 3, 4, 5, 6, 7, 255 }) for (int bd : { 0, 1, 2, 3, 4, 8, 16, 32, 255 })
-        mut_case<F>("depth-vs-type", vh::cat("ct", ct, "-bd", bd), false, true, [&] {
+        MUT("depth-vs-type", vh::cat("ct", ct, "-bd", bd), false, true, [&] {
             std::string b = png_build(6, 4, 8, 2, 0, 0, 100); b[24] = (char)bd; b[25] = (char)ct; return png_fix_crcs(b);
         });
     // palette shorter than the indices / missing / oversized; tRNS longer than the palette
     struct { const char* id; int bd, pal, trns; } pc[] = { { "pal8-1entry", 8, 1, 0 }, { "pal8-none", 8, 0, 0 }, { "pal4-3entries", 4, 3, 0 }, { "pal1-1entry", 1, 1, 0 },
                                                            { "pal8-256", 8, 256, 0 }, { "pal2-16entries", 2, 16, 0 }, { "pal8-trns-longer", 8, 4, 40 }, { "pal4-trns-256", 4, 16, 256 } };
     for (auto const& c : pc)
-        mut_case<F>("palette", c.id, false, true, [&] {
+        MUT("palette", c.id, false, true, [&] {
             std::string b = png_build(8, 3, c.bd, 3, c.pal == 256 ? 256 : c.pal, c.trns, 110);
             return b;
         });
-    mut_case<F>("palette", "plte-len-not-multiple-of-3", false, true, [&] {
+    MUT("palette", "plte-len-not-multiple-of-3", false, true, [&] {
         std::string b = png_build(8, 3, 8, 3, 4, 0, 111);
         for (auto const& c : png_chunks(b)) if (!strcmp(c.type, "PLTE")) { std::string n = b.substr(0, c.off) + png_chunk_bytes("PLTE", std::string(10, 'x')) + b.substr(c.off + 12 + c.len); return n; }
         return b;
@@ -156,7 +156,7 @@ static void targeted() {
     struct { const char* id; int w, h; int raw_rows; int filter; } dc[] = { { "idat-too-short", 6, 8, 2, -1 }, { "idat-too-long", 6, 2, 9, -1 }, { "idat-empty", 6, 4, 0, -1 },
                                                                              { "filter-5", 6, 4, 4, 5 }, { "filter-255", 6, 4, 4, 255 } };
     for (auto const& c : dc) for (int ct : { 0, 2, 6 })
-        mut_case<F>("idat-vs-header", vh::cat(c.id, "-ct", ct), false, true, [&] {
+        MUT("idat-vs-header", vh::cat(c.id, "-ct", ct), false, true, [&] {
             int ch = ct == 0 ? 1 : ct == 2 ? 3 : 4;
             std::string raw; vh::rng r(120);
             for (int y = 0; y < c.raw_rows; ++y) { raw.push_back((char)(c.filter >= 0 ? c.filter : 0)); for (int i = 0; i < c.w * ch; ++i) raw.push_back((char)r.next()); }
@@ -168,12 +168,12 @@ static void targeted() {
     struct { const char* id; uint32_t w, h; } dm[] = { { "w0", 0, 4 }, { "h0", 4, 0 }, { "w-2^31-1", 0x7FFFFFFF, 1 }, { "h-2^31-1", 1, 0x7FFFFFFF }, { "w-2^31", 0x80000000u, 1 },
                                                        { "65536x65536", 65536, 65536 }, { "1000000x1", 1000000, 1 }, { "1x1000000", 1, 1000000 }, { "30000x30000", 30000, 30000 } };
     for (auto const& c : dm) for (int il = 0; il < 2; ++il)
-        mut_case<F>("dimension", vh::cat(c.id, il ? "-adam7" : ""), false, true, [&] {
+        MUT("dimension", vh::cat(c.id, il ? "-adam7" : ""), false, true, [&] {
             std::string b = png_build(4, 4, 8, 2, 0, 0, 130); c11::put_be(b, 16, 4, c.w); c11::put_be(b, 20, 4, c.h); b[28] = (char)il; return png_fix_crcs(b);
         });
     // chunk order / duplicates / unknown critical chunk / missing IEND / zlib stream cut
     for (int k = 0; k < 8; ++k)
-        mut_case<F>("chunk-structure", vh::cat("variant", k), false, true, [&] {
+        MUT("chunk-structure", vh::cat("variant", k), false, true, [&] {
             std::string b = png_build(5, 4, 8, 3, 8, 3, 140);
             std::vector<png_chunk> ch = png_chunks(b);
             auto bytes_of = [&](png_chunk const& c) { return b.substr(c.off, 12 + c.len); };
@@ -190,7 +190,7 @@ static void targeted() {
             }
         });
     const char* junk[] = { "", "\x89", "\x89PNG", "\x89PNG\r\n\x1a\n", "BM....", "\xff\xd8\xff" };
-    for (int k = 0; k < 6; ++k) mut_case<F>("not-png", vh::cat("junk", k), false, true, [&] { return std::string(junk[k]); });
+    for (int k = 0; k < 6; ++k) MUT("not-png", vh::cat("junk", k), false, true, [&] { return std::string(junk[k]); });
 }
 #endif
 
@@ -285,26 +285,26 @@ static void targeted() {
                                                        { "4000x4000", 4000, 4000 }, { "2000x100", 2000, 100 }, { "8x8", 8, 8 }, { "1x1", 1, 1 } };
     for (auto const& c : dm) for (int g = 0; g < 2; ++g) {
         if (!vh::thorough() && (uint64_t)c.w * c.h > (6u << 20) && (uint64_t)c.w * c.h < (80u << 20)) continue;
-        mut_case<F>("dimension", vh::cat(c.id, g ? "-gray" : "-rgb"), false, true, [&] {
+        MUT("dimension", vh::cat(c.id, g ? "-gray" : "-rgb"), false, true, [&] {
             std::string b = g ? gray : base; jpeg_seg s = find(b, 0xC0);
             c11::put_be(b, s.off + 5, 2, c.h); c11::put_be(b, s.off + 7, 2, c.w); return b;
         });
     }
     // component counts / sampling factors / table selectors
     for (int nc : { 0, 1, 2, 3, 4, 5, 10, 255 })
-        mut_case<F>("components", vh::cat("sof-ncomp", nc), false, true, [&] { std::string b = base; jpeg_seg s = find(b, 0xC0); b[s.off + 9] = (char)nc; return b; });
+        MUT("components", vh::cat("sof-ncomp", nc), false, true, [&] { std::string b = base; jpeg_seg s = find(b, 0xC0); b[s.off + 9] = (char)nc; return b; });
     for (int sf : { 0x00, 0x10, 0x01, 0x11, 0x22, 0x41, 0x14, 0x44, 0x55, 0xFF }) for (int comp = 0; comp < 3; ++comp)
-        mut_case<F>("sampling", vh::cat("comp", comp, "-", sf), false, true, [&] { std::string b = base; jpeg_seg s = find(b, 0xC0); b[s.off + 11 + 3 * comp] = (char)sf; return b; });
+        MUT("sampling", vh::cat("comp", comp, "-", sf), false, true, [&] { std::string b = base; jpeg_seg s = find(b, 0xC0); b[s.off + 11 + 3 * comp] = (char)sf; return b; });
     for (int tq : { 1, 2, 3, 4, 15, 255 }) for (int comp = 0; comp < 3; ++comp)
-        mut_case<F>("table-selector", vh::cat("sof-comp", comp, "-tq", tq), false, true, [&] { std::string b = base; jpeg_seg s = find(b, 0xC0); b[s.off + 12 + 3 * comp] = (char)tq; return b; });
+        MUT("table-selector", vh::cat("sof-comp", comp, "-tq", tq), false, true, [&] { std::string b = base; jpeg_seg s = find(b, 0xC0); b[s.off + 12 + 3 * comp] = (char)tq; return b; });
     for (int t : { 0x01, 0x10, 0x22, 0x33, 0x44, 0xFF }) for (int comp = 0; comp < 3; ++comp)
-        mut_case<F>("table-selector", vh::cat("sos-comp", comp, "-tables", t), false, true, [&] { std::string b = base; jpeg_seg s = find(b, 0xDA); b[s.off + 6 + 2 * comp] = (char)t; return b; });
+        MUT("table-selector", vh::cat("sos-comp", comp, "-tables", t), false, true, [&] { std::string b = base; jpeg_seg s = find(b, 0xDA); b[s.off + 6 + 2 * comp] = (char)t; return b; });
     // segment lengths: beyond EOF, shorter than the payload, below 2
     for (int marker : { 0xE0, 0xDB, 0xC0, 0xC4, 0xDA }) for (unsigned len : { 0u, 1u, 2u, 3u, 0x7FFFu, 0xFFFFu })
-        mut_case<F>("segment-length", vh::cat("marker", marker, "-len", len), false, true, [&] { std::string b = base; jpeg_seg s = find(b, marker); if (s.off) c11::put_be(b, s.off + 2, 2, len); return b; });
+        MUT("segment-length", vh::cat("marker", marker, "-len", len), false, true, [&] { std::string b = base; jpeg_seg s = find(b, marker); if (s.off) c11::put_be(b, s.off + 2, 2, len); return b; });
     // missing tables / segments, duplicated SOF, markers inside the scan
     for (int k = 0; k < 8; ++k)
-        mut_case<F>("structure", vh::cat("variant", k), false, true, [&] {
+        MUT("structure", vh::cat("variant", k), false, true, [&] {
             std::string b = base; std::vector<jpeg_seg> ss = jpeg_segments(b);
             auto cut = [&](int marker, bool all) { std::string o = b.substr(0, 2); for (auto const& s : ss) { bool drop = s.marker == marker; if (drop && !all) { marker = -1; } if (!drop) o += b.substr(s.off, s.marker == 0xDA ? std::string::npos : 2 + s.len); } return o; };
             switch (k) {
@@ -320,9 +320,9 @@ static void targeted() {
         });
     // arithmetic / progressive / lossless SOF markers on baseline data
     for (int m : { 0xC1, 0xC2, 0xC3, 0xC5, 0xC9, 0xCA, 0xCB, 0xCF })
-        mut_case<F>("sof-kind", vh::cat("marker", m), false, true, [&] { std::string b = base; jpeg_seg s = find(b, 0xC0); b[s.off + 1] = (char)m; return b; });
+        MUT("sof-kind", vh::cat("marker", m), false, true, [&] { std::string b = base; jpeg_seg s = find(b, 0xC0); b[s.off + 1] = (char)m; return b; });
     const char* junk[] = { "", "\xff", "\xff\xd8", "\xff\xd8\xff", "\xff\xd8\xff\xd9", "BM....", "\x89PNG\r\n\x1a\n" };
-    for (int k = 0; k < 7; ++k) mut_case<F>("not-jpeg", vh::cat("junk", k), false, true, [&] { return std::string(junk[k]); });
+    for (int k = 0; k < 7; ++k) MUT("not-jpeg", vh::cat("junk", k), false, true, [&] { return std::string(junk[k]); });
 }
 #endif
 
@@ -442,19 +442,19 @@ static void targeted() {
         { "compression-packbits", 259, 32773 }, { "compression-deflate", 259, 8 }, { "compression-0", 259, 0 }, { "compression-65535", 259, 65535 },
         { "orientation-5", 274, 5 }, { "orientation-9", 274, 9 }, { "sampleformat-float", 339, 3 }, { "sampleformat-int", 339, 2 } };
     for (auto const& c : tv) for (int which = 0; which < 3; ++which)
-        mut_case<F>("tag-value", vh::cat(which == 0 ? "strip-" : which == 1 ? "tiled-" : "lzw-", c.id), false, true, [&] { return set_tag(which == 0 ? base : which == 1 ? tiled : lzw, c.tag, 2, c.v); });
+        MUT("tag-value", vh::cat(which == 0 ? "strip-" : which == 1 ? "tiled-" : "lzw-", c.id), false, true, [&] { return set_tag(which == 0 ? base : which == 1 ? tiled : lzw, c.tag, 2, c.v); });
     struct { const char* id; unsigned tag; uint64_t v; } tt[] = { { "tilewidth0", 322, 0 }, { "tilelength0", 323, 0 }, { "tilewidth1", 322, 1 }, { "tilewidth-17", 322, 17 }, { "tilewidth-2^31", 322, 0x80000000ull },
                                                                    { "tilelength-65536", 323, 65536 }, { "tilewidth-1024", 322, 1024 }, { "tilebytecount0", 325, 0 }, { "tileoffsets-count1", 324, 1 } };
     for (auto const& c : tt)
-        mut_case<F>("tile-geometry", c.id, false, true, [&] { return strstr(c.id, "count1") ? set_tag(tiled, c.tag, 1, c.v) : set_tag(tiled, c.tag, 2, c.v); });
+        MUT("tile-geometry", c.id, false, true, [&] { return strstr(c.id, "count1") ? set_tag(tiled, c.tag, 1, c.v) : set_tag(tiled, c.tag, 2, c.v); });
     // counts and types of the array-valued tags
     for (unsigned tag : { 256u, 258u, 273u, 279u, 277u, 324u, 325u }) for (uint64_t cnt : { 0ull, 2ull, 3ull, 1000ull, 0x7FFFFFFFull, 0xFFFFFFFFull }) for (int which = 0; which < 2; ++which)
-        mut_case<F>("tag-count", vh::cat(which ? "tiled-" : "strip-", "tag", tag, "-count", cnt), false, true, [&] { return set_tag(which ? tiled : base, tag, 1, cnt); });
+        MUT("tag-count", vh::cat(which ? "tiled-" : "strip-", "tag", tag, "-count", cnt), false, true, [&] { return set_tag(which ? tiled : base, tag, 1, cnt); });
     for (unsigned tag : { 256u, 257u, 258u, 273u, 279u }) for (unsigned ty : { 0u, 1u, 2u, 5u, 7u, 11u, 12u, 13u, 16u, 255u })
-        mut_case<F>("tag-type", vh::cat("tag", tag, "-type", ty), false, true, [&] { return set_tag(base, tag, 0, ty); });
+        MUT("tag-type", vh::cat("tag", tag, "-type", ty), false, true, [&] { return set_tag(base, tag, 0, ty); });
     // directory structure: self-referencing next-IFD, IFD beyond EOF, zero entries, big-endian marker on little-endian data, BigTIFF magic
     for (int k = 0; k < 8; ++k)
-        mut_case<F>("directory", vh::cat("variant", k), false, true, [&] {
+        MUT("directory", vh::cat("variant", k), false, true, [&] {
             std::string b = base; size_t ifd = 0; std::vector<tiff_entry> es = tiff_ifd(b, &ifd);
             switch (k) {
             case 0: c11::put_le(b, ifd + 2 + 12 * es.size(), 4, ifd); return b;
@@ -469,6 +469,6 @@ static void targeted() {
         });
     const char* junk[] = { "", "I", "II", "II*", "MM\0*", "II*\0\x08\0\0\0", "BM....", "\x89PNG\r\n\x1a\n" };
     size_t junk_len[] = { 0, 1, 2, 3, 4, 8, 6, 8 };
-    for (int k = 0; k < 8; ++k) mut_case<F>("not-tiff", vh::cat("junk", k), false, true, [&] { return std::string(junk[k], junk_len[k]); });
+    for (int k = 0; k < 8; ++k) MUT("not-tiff", vh::cat("junk", k), false, true, [&] { return std::string(junk[k], junk_len[k]); });
 }
 #endif
